@@ -19,7 +19,7 @@ EXPLANATION = ("Necessary structural clauses of C02 decided from MIR/HIR facts a
                "with an inline prefix always records its length; (R8) the offset width of the indexed value store covers what is "
                "written with it. Value equality for any entry is not decided."
                " (R1 fold) the sign-folding helper shifts under a comparison with a constant bound; (R3 array-length-measured) the value sizing the array length column is `<array>.size` on every arm; (R10) reader property offsets are the running sum of the sizes before, read before the accumulator is advanced."
-               ' Added later: (R11) writer and reader agree on where a variant ends; (R12) the inline prefix of an array is bounded by 31 before it is packed; (R13) entries equal on every sort key compare Equal; (R14) sizes are compared before they are narrowed (reader); (R15) every value handed to a store handle is registered in the store; (R8) the offset width comes from the total size only.')
+               ' Added later: (R11) writer and reader agree on where a variant ends; (R12) the inline prefix of an array is bounded by 31 before it is packed; (R13) entries equal on every sort key compare Equal; (R14) sizes are compared before they are narrowed (reader); (R15) every value handed to a store handle is registered in the store; (R8) the offset width comes from the total size only. (R16) the declared width of an integer column comes from the sizing pass alone.')
 ASSUMPTIONS = ["byteorder read_int sign-extends", "rustc MIR/HIR construction and trait resolution", "reference table for the entry encoding"]
 
 SIGNED = r"<(i8|i16|i32|i64|i128|isize)>"
@@ -809,7 +809,27 @@ def r15_every_value_is_registered(cx):
           "every successful path of StoreHandle::add_value passes ValueStore::add_value (%d sites)" % len(reg))
 
 
+def r16_declared_width_comes_from_the_sizing_alone(cx):
+    """the width declared for an integer column is also the width its default value is written with when the column is
+    constant (`write_usized(default, size)` in the layout): it is what the sizing pass found over all entries, whether or
+    not the column turned out constant -- where the schema becomes a layout, the `size` of an integer property is built
+    from its `PropertySize` only, with no byte-size constant and nothing derived from the value counter."""
+    F = cx.F
+    sites = []
+    for variant in ("UnsignedInt", "SignedInt"):
+        sites += [(variant,) + x for x in _agg_sites(F, r"layout::property::Property$", variant, "size", r"creator::directory_pack::schema::")]
+    if len(sites) < 2:
+        raise AnchorLost("schema -> layout: %d integer properties built" % len(sites))
+    for variant, f, b, i, opnd in sites:
+        o = b.origins(opnd)
+        fields = {x[1] for x in o if x[0] == "field"}
+        forced = sorted(x[1] for x in o if x[0] == "variant" and "ByteSize" in str(x[1]))
+        cx.ob("R16", "R16/%s.%s/width-from-the-sizing-alone" % (re.sub(r"<.*?>", "", f["name"]).split("::")[-1], variant), "size" in fields and "counter" not in fields and not forced, f,
+              "the size of a layout %s comes from the PropertySize of the schema property (fields on the way: %s; byte sizes forced: %s)" % (variant, sorted(fields), forced))
+
+
 RULES = [
+    ("R16", r16_declared_width_comes_from_the_sizing_alone, 2),
     ("R15", r15_every_value_is_registered, 1),
     ("R14", r14_sizes_are_compared_before_they_are_narrowed, 1),
     ("R1", r1_signed_width, 3),
